@@ -11,7 +11,7 @@ TECHNIQUE = 'Hypothesis PBT against a brute-force O(n^2) distance oracle with ti
 LEVEL = 'Generated-input exploration: each selection step is judged against dense distance matrices built independently (explicit differences; independently assembled PCovR Gram/covariance), reported distances and tables are compared with the true minima, feature/sample duality is a metamorphic cross-check. No absence claim: strength = the counted distinct non-trivial cases in the evidence.'
 BUDGET = {"quick": 2000, "thorough": 20000}
 RULE = ("Cases: FPS / PCovFPS x {feature, sample}; X kinds lattice (exact ties), clustered, dup, eighths, generic, lowrank, "
-        "scaled, 2..12 x 2..10 (thorough: to 60 x 30); y normal/lattice/linear; mixing in {0,.1,.5,.9,.99} or a drawn float in "
+        "scaled, tiny (x1e-5..1e-9) and huge (x1e4..1e6) global units, 2..12 x 2..10 (thorough: to 60 x 30); y normal/lattice/linear; mixing in {0,.1,.5,.9,.99} or a drawn float in "
         "[0,1); initial index int / 'random' / list / ndarray; request None/int/float up to N.  Oracle: dense squared-distance "
         "matrix by explicit differences (FPS) or D_ij=M_ii+M_jj-2M_ij from an independently built PCovR Gram / covariance "
         "matrix; every step judged against the actually selected prefix (tie-aware validity predicate).  Non-trivial: >= 3 "
@@ -29,7 +29,7 @@ def strategy_(draw, tier):
     cls = draw(st.sampled_from(["FPS", "PCovFPS"]))
     direction = draw(st.sampled_from(["feature", "sample"]))
     n, m = S.draw_shape(draw, tier, thorough=(60, 30))
-    kind = draw(st.sampled_from(["lattice", "lattice", "clustered", "dup", "eighths", "generic", "lowrank", "scaled"]))
+    kind = draw(st.sampled_from(["lattice", "lattice", "clustered", "dup", "eighths", "generic", "lowrank", "scaled", "tiny", "huge"]))
     X = gen.matrix(draw, n, m, kind)
     N = S.n_items(X, direction)
     y = S.draw_y(draw, n, X) if (cls == "PCovFPS" or draw(st.booleans())) else None
@@ -120,6 +120,10 @@ def check(case, ctx):
             sel2.fit(X, y)
         ctx.true("random-reproducible", int(sel2.selected_idx_[0]) == int(idx[0]),
                  "two fits with the same random_state start at %d and %d" % (idx[0], sel2.selected_idx_[0]))
+        # ... and refitting the same instance draws the same initial index again
+        with ctx.lib("refit-same-instance"):
+            sel.fit(X, y)
+        ctx.equal("random-reproducible-on-refit", np.asarray(sel.selected_idx_), idx, "selection after fitting the same instance a second time")
         ctx.cls("init=random")
     elif isinstance(init, (list, np.ndarray)):
         n_init = len(init)
